@@ -1,0 +1,15 @@
+//go:build !verif
+
+// Package verifhook provides instrumentation points used by the external
+// verification harness. Without the "verif" build tag every function in this
+// package is an empty, inlinable no-op.
+package verifhook
+
+// Enabled reports whether the verification hooks are compiled in.
+const Enabled = false
+
+// Point marks a named instrumentation point.
+func Point(name string) {}
+
+// Event reports a named event with arguments.
+func Event(name string, args ...interface{}) {}
